@@ -195,3 +195,106 @@ package rtree
 //@   modifies *tree
 //@   loop 1 `for i, e := range n.entries`
 //@     invariant -1 <= ind && ind < len(n.entries) && n != nil
+
+// ---- C12: nearest-neighbour bookkeeping ----
+
+//@ pred sortedF(d []float64, k int) = forall i int, j int :: 0 <= i && i <= j && j < k ==> d[i] <= d[j]
+//@ spec insPos(d []float64, k int, x float64, i int) int decreases k - i = (i < k && x >= d[i]) ? insPos(d, k, x, i+1) : i
+
+//@ func insertNearest
+//@   prop C12
+//@   mode real
+//@   requires [shape] k >= 0 && len(dists) >= k && len(nearest) >= k
+//@   ensures [rejected] insPos(dists, k, dist, 0) >= k ==> result0 == dists && result1 == nearest
+//@   ensures [inserted] insPos(dists, k, dist, 0) < k ==> fresh(result0) && fresh(result1) && len(result0) == k && len(result1) == k && (forall j int :: 0 <= j && j < k ==> result0[j] == (j < insPos(dists, k, dist, 0) ? dists[j] : (j == insPos(dists, k, dist, 0) ? dist : dists[j-1])) && result1[j] == (j < insPos(dists, k, dist, 0) ? nearest[j] : (j == insPos(dists, k, dist, 0) ? obj : nearest[j-1])))
+//@   ensures [pos] 0 <= insPos(dists, k, dist, 0) && insPos(dists, k, dist, 0) <= k && (forall j int :: 0 <= j && j < insPos(dists, k, dist, 0) ==> dists[j] <= dist) && (insPos(dists, k, dist, 0) < k ==> dist < dists[insPos(dists, k, dist, 0)])
+//@   ensures [stays_sorted] sortedF(dists, k) ==> sortedF(result0, k)
+//@   ensures [lengths] len(result0) >= k && len(result1) >= k
+//@   modifies nothing
+//@   loop 1 `for i < k && dist >= dists[i]`
+//@     invariant 0 <= i && i <= k && insPos(dists, k, dist, 0) == insPos(dists, k, dist, i) && (forall j int :: 0 <= j && j < i ==> dists[j] <= dist)
+//@     decreases k - i
+
+// wfN: the part of the shape invariant the read-only searches rely on
+// (assumed at their entry; its preservation by the mutators is not proved).
+//@ pred wfN(n *node, lvl int) decreases lvl = n != nil && lvl >= 1 && n.level == lvl && (n.leaf <==> lvl == 1) && (forall i int :: 0 <= i && i < len(n.entries) ==> n.entries[i].bb != nil && (lvl > 1 ==> n.entries[i].child != nil && wfN(n.entries[i].child, lvl-1)))
+//@ pred kidsWf(es []entry, lvl int) = forall i int :: 0 <= i && i < len(es) ==> es[i].bb != nil && (lvl > 1 ==> es[i].child != nil && wfN(es[i].child, lvl-1))
+//@ pred subsetE(a []entry, b []entry) = forall j int :: 0 <= j && j < len(a) ==> (exists i int :: 0 <= i && i < len(b) && a[j] == b[i])
+
+//@ func sortEntries
+//@   prop C12
+//@   mode real
+//@   trusted sort.Sort (standard library) is outside the verified code
+//@   opt writes=entry,float64,alloc
+//@   requires [boxes] forall i int :: 0 <= i && i < len(entries) ==> entries[i].bb != nil
+//@   ensures [shape] fresh(result0) && fresh(result1) && len(result0) == len(entries) && len(result1) == len(entries)
+//@   ensures [permutation] subsetE(result0, entries) && subsetE(entries, result0)
+//@   ensures [sorted] sortedF(result1, len(entries))
+//@   modifies nothing
+
+//@ func pruneEntries
+//@   prop C12
+//@   mode real
+//@   requires [boxes] forall i int :: 0 <= i && i < len(entries) ==> entries[i].bb != nil
+//@   requires [dists] len(minDists) >= len(entries)
+//@   ensures [subset] fresh(result) && len(result) <= len(entries) && subsetE(result, entries)
+//@   modifies nothing
+//@   loop 1 `for i := range entries`
+//@     invariant true
+//@   loop 2 `for i := range entries` #2
+//@     invariant fresh(pruned) && len(pruned) <= #2 && #2 <= len(entries) && subsetE(pruned, entries)
+
+//@ lemma subset_kidsWf(a []entry, b []entry, lvl int)
+//@   requires subsetE(a, b) && kidsWf(b, lvl)
+//@   ensures kidsWf(a, lvl)
+
+//@ func (tree *Rtree) nearestNeighbor
+//@   prop C12
+//@   mode real
+//@   requires [shape] n != nil && wfN(n, n.level)
+//@   ensures [never_worse] result1 <= d
+//@   ensures [kept] result1 == d ==> result0 == nearest
+//@   modifies nothing
+//@   decreases n.level
+//@   loop 1 `for _, e := range n.entries`
+//@     invariant d <= d@0 && (d == d@0 ==> nearest == nearest@0)
+//@   loop 2 `for _, e := range branches`
+//@     invariant d <= d@0 && (d == d@0 ==> nearest == nearest@0) && kidsWf(branches, n.level)
+//@   assert [children_wf] `for _, e := range branches` kidsWf(branches, n.level)
+//@     using subset_kidsWf(branches, n.entries, n.level)
+
+//@ func (tree *Rtree) NearestNeighbor
+//@   prop C12
+//@   mode real
+//@   requires [shape] tree != nil && tree.root != nil && wfN(tree.root, tree.root.level)
+//@   panics [empty_or_far] true
+//@   ensures [found] result != nil
+//@   modifies nothing
+
+//@ func (tree *Rtree) nearestNeighbors
+//@   prop C12
+//@   mode real
+//@   requires [shape] n != nil && wfN(n, n.level)
+//@   requires [slots] k >= 0 && len(dists) >= k && len(nearest) >= k && sortedF(dists, k)
+//@   ensures [slots] len(result0) >= k && len(result1) >= k && sortedF(result1, k)
+//@   ensures [never_worse] forall j int :: 0 <= j && j < k ==> result1[j] <= dists@0[j]
+//@   modifies nothing
+//@   decreases n.level
+//@   loop 1 `for _, e := range n.entries`
+//@     invariant len(dists) >= k && len(nearest) >= k && sortedF(dists, k) && (forall j int :: 0 <= j && j < k ==> dists[j] <= dists@0[j])
+//@   loop 2 `range branches`
+//@     invariant len(dists) >= k && len(nearest) >= k && sortedF(dists, k) && (forall j int :: 0 <= j && j < k ==> dists[j] <= dists@0[j]) && kidsWf(branches, n.level)
+//@   assert_then [skip_only_beyond_kth] `if k > 0 && math.Sqrt(branchDists[i]) > dists[k-1]` k >= 1 && sqrt(branchDists[i]) > dists[k-1] && (forall j int :: i <= j && j < len(branchDists) ==> branchDists[j] >= branchDists[i])
+//@   assert_if_present [minmaxdist_pruning_only_for_k1] `branches = pruneEntries(p, branches, branchDists)` k <= 1
+//@   assert [children_wf] `range branches` kidsWf(branches, n.level)
+//@     using subset_kidsWf(branches, n.entries, n.level)
+
+//@ func (tree *Rtree) NearestNeighbors
+//@   prop C12
+//@   mode real
+//@   requires [shape] tree != nil && tree.root != nil && wfN(tree.root, tree.root.level)
+//@   requires [k] k >= 0
+//@   ensures [slots] len(result) >= k
+//@   modifies nothing
+//@   loop 1 `for i := 0; i < k; i++`
+//@     invariant 0 <= i && i <= k && len(dists) == k && len(objs) == k && fresh(dists) && fresh(objs) && (forall j int :: 0 <= j && j < i ==> dists[j] == 1.7976931348623157e308)
